@@ -323,9 +323,64 @@ def _twin_restore(h):
 TwinLeagues.RULES = {"play": _twin_match, "play_again": _twin_match, "restore": _twin_restore}
 
 
+def fork_custom(ctx, seed, tier, shard, nshards, n):
+    """ids are fresh and unique also across a fork() of a process that has already imported the library and created ratings (pre-forking
+    servers, multiprocessing with the fork start method): parent and child create ratings after the fork; no id may occur on both sides."""
+    import os
+
+    from vf.osk import classes
+
+    if not hasattr(os, "fork"):
+        return
+    for k in range(n):
+        case = {"fork": k, "shard": shard, "per_side": 40}
+        ctx.begin(case)
+        models = [c() for c in classes().values()]
+        before = [m.rating().id for m in models]  # the library is in use before the fork
+        r, w = os.pipe()
+        pid = os.fork()
+        if pid == 0:
+            try:
+                os.close(r)
+                ids = [m.rating().id for _ in range(case["per_side"]) for m in models]
+                os.write(w, ("\n".join(ids)).encode())
+                os.close(w)
+            finally:
+                os._exit(0)
+        os.close(w)
+        mine = [m.rating().id for _ in range(case["per_side"]) for m in models]
+        buf = b""
+        while True:
+            chunk = os.read(r, 65536)
+            if not chunk:
+                break
+            buf += chunk
+        os.close(r)
+        os.waitpid(pid, 0)
+        theirs = buf.decode().split("\n") if buf else []
+        ctx.called(2 * len(mine))
+        both = (set(mine) | set(before)) & set(theirs)
+        if both:
+            v = Violation("ids:shared-across-fork", f"{len(both)} of {len(theirs)} rating ids created in a forked child are also handed out in the parent, e.g. {sorted(both)[:3]}")
+            v.case = case
+            raise v
+        if len(theirs) != len(mine):
+            from vf.core import HarnessError
+            raise HarnessError("fork child did not report its ids")
+        ctx.nontrivial_if(True)
+        ctx.end()
+
+
+def check_fork(case, ctx):
+    fork_custom(ctx, 0, "quick", 0, 1, 1)
+
+
 PROPERTY = Property(
     pid="C20",
     clauses=[
+        Clause(name="ids-across-fork", kind="custom", custom=fork_custom, check=check_fork, quick=32, thorough=320, shards_quick=16, shards_thorough=16,
+               rule="a process that has imported the library and created ratings forks; parent and child each create 200 ratings (all five classes); "
+                    "no id may be handed out on both sides; non-trivial = always"),
         Clause(name="construction", strategy=construct_cases(), check=check_construct, quick=6000, thorough=100000,
                rule="rating() with each argument present / omitted (keyword and positional) and create_rating (instance and class) on values incl. 0, 0.0, -0.0, "
                     "negatives, ints, bools; non-trivial = a zero / negative value or an omitted argument"),
@@ -345,3 +400,8 @@ PROPERTY = Property(
     assumptions=["create_rating is exercised with name None or non-empty text (the empty string is normalised to 'no name' there; not asserted either way)",
                  "finite mu / sigma only"],
 )
+
+from vf import opt as _opt  # noqa: E402
+
+PROPERTY.clauses.append(_opt.optimised("C20", next(c for c in PROPERTY.clauses if c.name == "construction"), quick=160, thorough=1600))
+PROPERTY.clauses.append(_opt.optimised("C20", next(c for c in PROPERTY.clauses if c.name == "deepcopy"), quick=160, thorough=1600))
